@@ -260,6 +260,9 @@ impl Prop for Ztoz {
     fn name(&self) -> &'static str {
         "ztoz-binary"
     }
+    fn max_shrink_iters(&self) -> u32 {
+        400
+    }
     fn tape_len(&self) -> usize {
         800
     }
